@@ -172,10 +172,11 @@ func runChild(dir string, idx int, sc Scenario, wall time.Duration) job {
 }
 
 func parent(r *vf.Run) {
-	r.Rule("every scenario = fresh tables per round, workers standing for the goroutines bio-rd itself runs concurrently (FSM goroutines feeding Adj-RIB-Ins, static/other-protocol writers of the Loc-RIB, configuration reload replacing import/export policies, RIS observers registering/unregistering/refreshing, sessions coming up and going down with started update senders, API/metrics readers, LocRIB.Dispose with late registration, a peer that stops reading) with PRNG operation lists, run at GOMAXPROCS 1,2,4,16 in a child process under the no-progress watchdog; after every round a probe (Dump, AddPath, Register+Unregister on every table). Before that a single-goroutine pre-pass runs each lock-then-call-out sequence in order. distinct_nontrivial = (scenario, GOMAXPROCS, round) triples in which at least two operations were inside bio-rd at the same time (in-flight gauge) and the round and its probe completed")
+	r.Rule("every scenario = fresh tables per round, workers standing for the goroutines bio-rd itself runs concurrently (FSM goroutines feeding Adj-RIB-Ins, static/other-protocol writers of the Loc-RIB, configuration reload replacing import/export policies, RIS observers registering/unregistering/refreshing, sessions coming up and going down with started update senders, API/metrics readers, LocRIB.Dispose with late registration, a peer that stops reading (writes block) or goes away (writes fail) while announcements are queued, followed by session teardown / DisposePeer, connection collisions of active peers whose long-lived outgoing FSM had 0-2 earlier sessions and is in OpenSent again while the peer's own connection delivers its OPEN at the same time, router id above and below the peers' identifiers) with PRNG operation lists, run at GOMAXPROCS 1,2,4,16 in a child process under the no-progress watchdog; after every round a probe (Dump, AddPath, Register+Unregister on every table). Before that a single-goroutine pre-pass runs each lock-then-call-out sequence in order. distinct_nontrivial = (scenario, GOMAXPROCS, round) triples in which at least two operations were inside bio-rd at the same time (in-flight gauge) and the round and its probe completed")
 	r.Assume("a goroutine counts as parked in bio-rd when its wait reason is a mutex/rwmutex/channel operation and its innermost non-runtime frame is bio-rd code",
 		"lock owners are taken from the receiver types of the frames (classification of the witness only; the verdict needs none of it)",
-		"a peer connection may block writes for a while but accepts them again (a connection that blocks for ever is outside the statement)",
+		"a peer connection may block writes for a while but accepts them again (a connection that blocks for ever is outside the statement); a connection may also fail every write",
+		"active peers: a goroutine parked in FSM.tcpConnect waits for the TCP connector, which holds a failed dial for 30 s and then takes it; the after-scenario check for goroutines blocked for ever is therefore not applied to server-reconnect-collision (the no-progress oracle is)",
 		"a listed operation that panics instead of returning has not completed: judged (clause panic) in the deterministic pre-pass; panics that only show under concurrency, and panics of readers, are consequences of unsynchronised accesses, counted here and judged by C26",
 		"static routes are not offered to route-reflector-client sessions with a started update sender (the sender goroutine crashes in the CLUSTER_LIST serializer, a C09 finding, and would take the child down every round)")
 	r.NonDeterministic("deadlock")
@@ -213,6 +214,9 @@ func parent(r *vf.Run) {
 			rn := rounds
 			if strings.HasPrefix(n, "server-") { // real handshakes: ~0.2 s per round
 				rn = r.N(8, 600)
+			}
+			if n == "server-reconnect-collision" { // ~40 ms per round, three collisions each
+				rn = r.N(40, 1500)
 			}
 			scs = append(scs, Scenario{Name: n, Procs: p, Rounds: rn, Seed: uint64(r.Seed)*1000003 + uint64(p), SampleMS: sample})
 		}
@@ -289,6 +293,10 @@ func parent(r *vf.Run) {
 	r.Set("scenarios", append(append(seqNames(), concNames()...), serverNames()...))
 	r.Require("operations", int64(r.N(50000, 2000000)))
 	r.Require("probes_completed", int64(r.N(400, 20000)))
+	// the fault-then-teardown and reconnect-collision cases must really have happened
+	r.Require("sender_write_failures", int64(r.N(50, 1000)))
+	r.Require("teardowns_after_failed_writes", int64(r.N(20, 400)))
+	r.Require("reconnect_collisions_peer_id_higher", int64(r.N(60, 2000)))
 }
 
 // judge turns a child's report into evidence and violations.
@@ -472,6 +480,11 @@ func childMain(scf, resf string) {
 }
 
 func leakChecked(name string) bool {
+	if name == "server-reconnect-collision" {
+		// active peers: every start event of an outgoing FSM leaves a goroutine in FSM.tcpConnect that waits for the TCP
+		// connector, which sits on a failed dial for 30 s (nobody reads conErrCh) and then takes it: parked, but not for ever
+		return false
+	}
 	return strings.HasPrefix(name, "server-") || name == "session-churn" || name == "sender-blocked-writes" || name == "seq-session-init-dispose"
 }
 
